@@ -33,6 +33,8 @@ KNOWN_KEY = "unitary-compute-disorder-scale"
 def recipes(labels, tier):
     D = [{"k": "pos", "de": 1.0}, {"k": "pos", "de": 0.35}, {"k": "comb", "a": 1.0, "b": 1.0, "de": 1.0},
          {"k": "comb", "a": 3.0, "b": 2.0, "de": 0.5}, {"k": "abs", "de": 1.0}]
+    if tier == "quick":
+        D = [D[1], D[2], D[3]]
     names = sorted(l for l in labels if l is not None)
     if None not in labels and names:
         D.append({"k": "comb", "a": 1.0, "b": 1.0, "de": 2.0, "cat": {"k": "ord", "labels": ["x", "y"]}})
@@ -73,10 +75,14 @@ def run(task):
     res = {"evaluations": 0, "transitions": 0, "traces": 0, "state_set": [], "nontrivial": [], "outcomes": [],
            "samples": [], "violations": [], "unspecified": 0, "extra": {}}
     tier = task["tier"]
-    cap = 10 if tier == "quick" else 60
+    cap = 6 if tier == "quick" else 60
     idx = 0
 
     def report(msg, case, known=None):
+        if known:
+            res["extra"]["known_finding_occurrences"] = res["extra"].get("known_finding_occurrences", 0) + 1
+            if res["extra"]["known_finding_occurrences"] > 20:
+                return
         res["violations"].append({"msg": msg, "case": case, "known": known,
                                   "sig": h([msg.split(":")[0], case.get("point"), len(case["nts"]),
                                             case["recipe"], known, len(res["violations"]) // 4])})
